@@ -741,7 +741,8 @@ fn classify(o: &Opts, refs: &Refs, h: &sam::Header, recs: &[RecordBuf]) -> V {
     let v = plain(o, refs, h, recs);
     let (tag0, detail0) = match &v {
         V::Fail((t, d)) => (t.clone(), d.clone()),
-        _ => return v,
+        V::Skip(msg) => return justify_skip(o, refs, h, recs, msg),
+        V::Ok => return v,
     };
     let (tag0, detail0) = (&tag0, &detail0);
     if tag0 == "cram-fqzcomp-raw-size" || tag0 == "cram-version-3.0-file-has-3.1-codec-block" || tag0 == "cram-intra-slice-mate-fields-recomputed" {
@@ -869,6 +870,27 @@ fn classify(o: &Opts, refs: &Refs, h: &sam::Header, recs: &[RecordBuf]) -> V {
     }
     drop(classes);
     v
+}
+
+/// A writer error means "not accepted" (skip) only if the input gives a reason for it: a mapped
+/// record whose SEQ is `*` although its CIGAR consumes bases (rejected with InvalidInput since
+/// /repo 9757af4), or a block codec that refuses a payload (rANS 4x8 order 1 on < 4 bytes).  The
+/// same stream with those records given bases and without compression must be accepted; a writer
+/// that still rejects it rejects a well-formed stream, which is a failure of the property.
+fn justify_skip(o: &Opts, refs: &Refs, h: &sam::Header, recs: &[RecordBuf], msg: &str) -> V {
+    let o2 = Opts { enc: "all:none".into(), ..o.clone() };
+    let mut recs2 = recs.to_vec();
+    for r in recs2.iter_mut() {
+        if is_mapped_missing_bases(r) {
+            let n: usize = r.cigar().as_ref().iter().filter(|op| op.kind().consumes_read()).map(|op| op.len()).sum();
+            *r.sequence_mut() = Sequence::from(vec![b'N'; n]);
+            *r.quality_scores_mut() = QualityScores::from(vec![40u8; n]);
+        }
+    }
+    match plain(&o2, refs, h, &recs2) {
+        V::Skip(m2) => V::Fail(("write-rejected-well-formed-stream".into(), format!("{msg}; still rejected without compression and with every mapped record given bases: {m2}"))),
+        _ => V::Skip(msg.to_string()),
+    }
 }
 
 /// content id -> the encoder assigned by `spec` (mirrors BlockContentEncoderMap lookups)
@@ -1167,7 +1189,7 @@ fn run_feat(c: &Case) -> Obs {
         && !seq.is_empty()
         && start + ref_len <= refb.len() + 1
         && ops.iter().all(|op| op.len() > 0)
-        && (qual.len() == seq.len());
+        && (qual.is_empty() || qual.len() == seq.len());
     let verdict = if well_formed {
         let cig_in: String = ops.iter().map(|op| format!("{}{}", op.len(), kind_char(op.kind()))).collect();
         let want_c = norm_cigar(&cig_in);
